@@ -308,7 +308,7 @@ def _main(tier, seed, scratch, t0):
             except Exception as ex:
                 doc['minimised'] = False
                 doc['minimise_error'] = repr(ex)
-        path = common.write_replay(PID, seed, f"{run}-{abs(hash(sig)) % 10 ** 6}", doc)
+        path = common.write_replay(PID, seed, f"{run}-{common.sha(sig.encode())[:8]}", doc)
         reported.append({'signature': sig, 'replay': path, 'what': doc.get('what', '')})
     expected = ['op_with_cache_hit', 'call_served_without_io', 'close_between_calls', 'method_switch_on_same_object',
                 'identical_call_repeated_on_same_object', 'kind:reader', 'kind:emulator', 'kind:xarray',
@@ -346,3 +346,14 @@ def _main(tier, seed, scratch, t0):
     print(f'{PID} {tier}: {len(results)} histories, {calls} reads compared, {len(states)} distinct cache states with hits, '
           f'unreached: {coverage["unreached"]}, {wall:.0f}s, exit {code}')
     return code
+
+
+def selftest_digests(seed, n, scratch):
+    lib = filelib.build(seed, scratch, n_random=4)
+    ctx = {'seed': seed, 'lib': lib, 'p_two_threads': 0.3, 'p_xarray': 0.1}
+
+    def f(c, run):
+        r = one_run(c, run)
+        return r['ed'] + ':' + str(len(r['states'])) + ':' + str(r['violation'] and r['violation']['signature'])
+    results, _, _ = common.run_parallel(f, ctx, range(n), chunk=7)
+    return [d for _, d in sorted(results)]
